@@ -283,6 +283,26 @@ fn emit(
     out.push(line, Some(k));
 }
 
+/// typed versus dynamic entry point (C13): every alpha operation on every alpha pixel type through both entry
+/// points on the same small images with fractional alpha - each line is judged against the specification
+pub fn generate_entry_pairs(out: &mut Out, rng: &mut Rng) {
+    for &pt in ALPHA_TYPES.iter() {
+        let kind = pt_kind(pt);
+        let n = pt_comps(pt);
+        for is_mul in [true, false] {
+            for (ext_name, ext) in exts() {
+                for inplace in [false, true] {
+                    let (w, h) = (9u32, 3u32);
+                    let comps = rand_alpha_comps(rng, kind, n, (w * h) as usize);
+                    for typed in [false, true] {
+                        emit(out, pt, is_mul, ext_name, ext, inplace, typed, w, h, &comps);
+                    }
+                }
+            }
+        }
+    }
+}
+
 /// the constant tables the implementation built (through the hooks), to be compared with the translated generators
 pub fn tables(out: &mut Out) {
     use fir::verif_hooks as vh;
